@@ -51,9 +51,6 @@ var fastaHarness = boundedHarness{prop: "C17", subject: "seqio.FastaParser", pos
 var genbankHarness = boundedHarness{prop: "C01", subject: "seqio.GenBankParser", pos: "seqio/genbank.go", file: "genbank_bounded_test.go", pkgDir: "seqio", test: "TestVerifBoundedGenBank",
 	clauses: []string{"record-writes", "written-record-parses", "residues-kept", "features-kept", "header-kept", "write-read-write-fixed-point", "stream-framed-independently", "unknown-qualifier-names", "corpus-declared-length"},
 	labels: [][2]string{
-		{"features-kept", "embedded-quote"},
-		{"write-read-write-fixed-point", "embedded-quote"},
-		{"written-record-parses", "embedded-quote"},
 		{"record-writes", "empty-region"},
 	}}
 
